@@ -132,7 +132,7 @@ func judgeC09Table(c *Ctx) {
 
 func runC09(c *Ctx, phase string) {
 	u := c.U
-	nMixed := c.Pick(4, 20)
+	nMixed := c.Pick(8, 24)
 	nCompound := c.Pick(2, 8)
 	c.Meta("every listed license id and exception id x case variants (lower, UPPER, seeded random mixes) x contexts: alone as expression against allowed entries of its cluster (same id, cluster partners plain and +, unrelated), "+
 		"as allowed entry, with '+', inside 'X WITH e' (license varied, and exception varied), and at a leaf of generated compound expressions with subsets of the terms as allowed lists; only the listed id is re-cased "+
